@@ -25,7 +25,7 @@ AttrPaths(at) == { FW \o ".attributes." \o f : f \in
      [] OTHER -> {"recipient"} }
 PathsFor(t) == CommonPaths \cup AttrPaths(t.fw.at) \cup (IF t.acts = <<>> THEN {PA} ELSE ActionPaths)
                \cup (IF t.acts = <<>> THEN {"x", "orbiter.x", FW \o ".x", FW \o ".attributes.x"} ELSE UnknownPaths)
-Muts == (IF ParseSet = "full" THEN Mutations ELSE Mutations \ {"longstr", "deepobj", "dupsame", "numstr"}) \ {"rename", "trailgarbage", "trailobj", "trailbrace", "leadgarbage"}
+Muts == (IF ParseSet = "full" THEN Mutations ELSE Mutations \ {"longstr", "deepobj", "dupsame", "numstr"}) \ {"rename", "trailgarbage", "trailobj", "trailbrace", "leadgarbage", "tworoots"}
 RenameGrid == { [t EXCEPT !.mk = "MUT", !.aid = p, !.op = "rename"] : t \in {T_CCTP, T_INT}, p \in {"orbiter", FW, FW \o ".attributes"} }
               \cup { [T_CCTP EXCEPT !.mk = "MUT", !.aid = PA, !.op = "rename"] }      \* (T_INT carries no pre_actions key)
 Templates == IF ParseSet = "full" THEN {T_CCTP, T_HYP, T_INT, T_INTF} ELSE {T_CCTP, T_HYP, T_INT}
@@ -51,7 +51,7 @@ Extremes == { [Xfer(0, b, 1000, FwINT("U"), <<>>) EXCEPT !.amtc = c] : b \in {"u
                    Xfer(0, "uusdc", 1000, FwINT("U"), <<FeeAct(<<[k |-> "fix", v |-> 5, vc |-> "OVER256", to |-> "F1"]>>)>>) }
 
 \* data before / after the root object: the memo is not a single JSON object
-TrailGrid == { [t EXCEPT !.mk = "MUT", !.aid = "root", !.op = m] : t \in Templates, m \in {"trailgarbage", "trailobj", "trailbrace", "leadgarbage"} }
+TrailGrid == { [t EXCEPT !.mk = "MUT", !.aid = "root", !.op = m] : t \in Templates, m \in {"trailgarbage", "trailobj", "trailbrace", "leadgarbage", "tworoots"} }
 MCAlphabet == MutGrid \cup RenameGrid \cup TrailGrid \cup RandomGrid \cup Extremes
 SmallAlphabet == MCAlphabet
 StepProps == [][ Prop_C14(last') /\ Prop_C15(last') /\ Prop_C01(last') /\ Prop_C03(last') ]_vars
